@@ -39,6 +39,8 @@ fn png_builder() -> ImageBuilder {
 fn expected_bytes(kind: &str, q: &QRCode) -> Result<Vec<u8>, String> {
     subject::guarded(|| match kind {
         "svg" => svg_builder().to_str(q).into_bytes(),
+        "svgd" => SvgBuilder::default().to_str(q).into_bytes(),
+        "pngd" => ImageBuilder::default().to_bytes(q).unwrap_or_default(),
         _ => png_builder().to_bytes(q).unwrap_or_default(),
     })
 }
@@ -60,6 +62,8 @@ pub fn child_main(args: &[String]) -> i32 {
     };
     let r = subject::guarded(|| match kind {
         "svg" => svg_builder().to_file(&q, &path).map_err(|e| format!("{:?}", e)),
+        "svgd" => SvgBuilder::default().to_file(&q, &path).map_err(|e| format!("{:?}", e)),
+        "pngd" => ImageBuilder::default().to_file(&q, &path).map_err(|e| format!("{:?}", e)),
         _ => png_builder().to_file(&q, &path).map_err(|e| format!("{:?}", e)),
     });
     match r {
@@ -155,8 +159,11 @@ pub fn replay(case: &Value, verif_dir: &str) -> Result<Vec<(String, String)>, St
         let run = run_child(verif_dir, &kind, v, &path, &[], "fqv-no-such-marker", &format!("{}/log", dir))?;
         judge_os(&run, &path)
     } else {
-        let path = format!("{}/fqvtarget.{}", dir, kind);
+        let path = format!("{}/fqvtarget.{}", dir, if kind.starts_with("svg") { "svg" } else { "png" });
         let _ = std::fs::remove_file(&path);
+        if case.get("stale_file").and_then(|x| x.as_bool()).unwrap_or(false) {
+            let _ = std::fs::write(&path, vec![b'S'; 1 << 20]);
+        }
         let run = run_child(verif_dir, &kind, v, &path, &plan, "fqvtarget", &format!("{}/log", dir))?;
         judge(&run, std::fs::read(&path).ok(), &expected, &plan)
     };
@@ -174,7 +181,7 @@ fn judge_os(run: &Run, path: &str) -> Vec<(String, String)> {
 
 pub fn run(ctx: &Ctx) -> Collector {
     let col = Collector::new("C19", "fault_enumeration");
-    col.set_rule("cases = for SvgBuilder::to_file and ImageBuilder::to_file on a v1 and a v10 symbol (thorough adds v25): (i) real OS faults: missing directory, path is a directory, /dev/full (ENOSPC at write time), path containing NUL, empty path; (ii) faults injected below the crate by an LD_PRELOAD shim over open/open64/openat/write/close: ALL fault sequences of up to 2 deviations, a deviation = (k-th open of the target, class in {EACCES, EROFS, ENOENT, EISDIR, ENOSPC, EMFILE}) or (k-th write to the target, class in {ENOSPC, EIO, EDQUOT, EINTR, short 1 byte, short n/2, short n-1}), k ranging over every call index in the syscall log of the run being extended (DFS over prefixes); each run is a child process calling the real to_file, once with no file present and once over a stale file; oracle: no panic/abort; Ok => file bytes = to_str()/to_bytes() of the same builder; a delivered hard fault => Err; retryable faults (EINTR, short writes) may end either way; non-trivial = a fault was delivered; distinct = distinct (target, plan) pairs with distinct syscall logs");
+    col.set_rule("cases = for SvgBuilder::to_file and ImageBuilder::to_file on 8 (thorough 14) builder/symbol targets whose output sizes range from 0.3 KB to 0.5 MB and straddle the 4 KiB, 8 KiB and 64 KiB buffer sizes: (i) real OS faults: missing directory, path is a directory, /dev/full (ENOSPC at write time), path containing NUL, empty path; (ii) faults injected below the crate by an LD_PRELOAD shim over open/open64/openat/write/close: ALL fault sequences of up to 2 deviations, a deviation = (k-th open of the target, class in {EACCES, EROFS, ENOENT, EISDIR, ENOSPC, EMFILE}) or (k-th write to the target, class in {ENOSPC, EIO, EDQUOT, EINTR, short 1 byte, short n/2, short n-1}), k ranging over every call index in the syscall log of the run being extended (DFS over prefixes); each run is a child process calling the real to_file, once with no file present and once over a stale 1 MiB file (longer than any output); oracle: no panic/abort; Ok => file bytes = to_str()/to_bytes() of the same builder; a delivered hard fault => Err; retryable faults (EINTR, short writes) may end either way; non-trivial = a fault was delivered; distinct = distinct (target, plan) pairs with distinct syscall logs");
     col.assume("the OS below the syscall boundary is modelled by the shim's fault classes; faults at close/fsync are not modelled because the crate does not call fsync and ignores close errors like std does");
     let thorough = ctx.tier.thorough();
     let dir = format!("{}/scratch/c19-{}", ctx.verif_dir, std::process::id());
@@ -182,12 +189,12 @@ pub fn run(ctx: &Ctx) -> Collector {
         col.machinery_error(format!("scratch directory or {} missing", shim_path(&ctx.verif_dir)));
         return col;
     }
-    let versions: Vec<usize> = if thorough { vec![1, 10, 25] } else { vec![1, 10] };
-    let mut targets = vec![];
-    for kind in ["svg", "png"] {
-        for &v in &versions {
-            targets.push((kind, v));
-        }
+    // output sizes from ~0.3 KB to ~0.5 MB, on both sides of the usual 4 KiB / 8 KiB / 64 KiB buffer sizes:
+    // svgd = default SvgBuilder (v1 3.0 KB, v3 5.6 KB, v4 7.0 KB, v5 8.9 KB), svg = rounded squares (v1 9 KB, v10 70 KB),
+    // pngd = default ImageBuilder at original scale (a few hundred bytes), png = fit_width(200)
+    let mut targets: Vec<(&str, usize)> = vec![("svgd", 1), ("svgd", 4), ("svgd", 5), ("svg", 1), ("svg", 10), ("pngd", 1), ("png", 1), ("png", 10)];
+    if thorough {
+        targets.extend([("svgd", 2), ("svgd", 3), ("svgd", 40), ("svg", 25), ("pngd", 40), ("png", 25)]);
     }
     let runs = AtomicU64::new(0);
     let delivered = AtomicU64::new(0);
@@ -210,7 +217,7 @@ pub fn run(ctx: &Ctx) -> Collector {
         };
         let tdir = format!("{}/t{}", dir, ti);
         let _ = std::fs::create_dir_all(&tdir);
-        let path = format!("{}/fqvtarget.{}", tdir, kind);
+        let path = format!("{}/fqvtarget.{}", tdir, if kind.starts_with("svg") { "svg" } else { "png" });
         let logp = format!("{}/log", tdir);
         // (i) real OS faults
         let _ = std::fs::create_dir_all(format!("{}/isdir", tdir));
@@ -239,7 +246,8 @@ pub fn run(ctx: &Ctx) -> Collector {
             while let Some(plan) = stack.pop() {
                 let _ = std::fs::remove_file(&path);
                 if stale {
-                    let _ = std::fs::write(&path, b"STALE CONTENT FROM AN EARLIER RUN, LONGER THAN NOTHING");
+                    // a stale file LONGER than anything to_file will write (a missing truncate must show)
+                    let _ = std::fs::write(&path, vec![b'S'; 1 << 20]);
                 }
                 let run = match run_child(&ctx.verif_dir, kind, v, &path, &plan, "fqvtarget", &logp) {
                     Ok(r) => r,
